@@ -208,8 +208,8 @@ func factsDeterminism() {
 						switch {
 						case pp == "sync" || pp == "sync/atomic":
 							kind = "sync"
-						case strings.HasPrefix(pp, "github.com/haqq-network/haqq/") && !strings.HasSuffix(n.Obj().Name(), "Keeper"):
-							kind = "ptr"
+						case !strings.HasSuffix(n.Obj().Name(), "Keeper") && !strings.HasSuffix(n.Obj().Name(), "StoreKey") && !strings.Contains(pp, "/codec") && !strings.HasSuffix(n.Obj().Name(), "Codec"):
+							kind = "ptr:" + pp + "." + n.Obj().Name()
 						}
 					}
 				}
@@ -224,7 +224,7 @@ func factsDeterminism() {
 		}
 	}
 	sort.Slice(memFields, func(i, j int) bool { return memFields[i][0] < memFields[j][0] })
-	emitPairs("keeperMemFields", memFields, "every field of a struct named Keeper (consensus packages) that can hold data outside the store: package::Keeper.field → map | slice | chan | sync | ptr (pointer to a non-keeper struct of this repository)")
+	emitPairs("keeperMemFields", memFields, "every field of a struct named Keeper (consensus packages) that can hold data outside the store: package::Keeper.field → map | slice | chan | sync | ptr:<type> (pointer to a struct that is not a keeper, a store key or a codec)")
 
 	// bank-keeper methods called from Haqq's own packages (by the type of the receiver expression)
 	bankMethods := map[string]bool{}
